@@ -145,6 +145,17 @@ CLAIMED = {
    note="Allocation is measured with runtime.MemStats.TotalAlloc; chunk decompression (zstd) is outside the property's anchors.",
    technique="TLA+ classification + decoder model checked by TLC over all classes; spec-generated inputs replayed on the real decoders and validated by TLC",
    design="4/C19"),
+ "C08": dict(
+   text="ChunkWrite.tla models adding a chunk as steps of concurrent writers (create temporary file, write any byte count, close, rename; failure path; pruning of "
+        "live temporary files) with a crash in any state; TLC checks that nothing partial is ever visible under a chunk name and that variants (shared temporary "
+        "name, writing under the final name, renaming first) violate it. ExtractCrash.tla does the same for extract through a temporary file (destination intact) "
+        "and in place (a re-run fetches only what was not valid after the death). Binding: real StoreChunk calls interleaved by the gate scheduler with a directory "
+        "snapshot at every step; children that SIGKILL themselves at step k or are limited to k bytes (RLIMIT_FSIZE); the real CLI under strace with every prefix of "
+        "its file-system calls replayed on a model directory; the real CLI killed on entry to the k-th call of every syscall group; in-place extract killed at the "
+        "k-th chunk request and re-run against a counting HTTP store.",
+   note="Process death only (the kernel's view survives), not power loss. strace's `when=k` counts per thread. Local stores only.",
+   technique="TLA+ specs checked by TLC (with violating variants as witnesses); trace validation of scheduler-, strace- and kill-based observations of the real code",
+   design="4/C08"),
  "C13": dict(
    text="Catar.tla is the archive format as an attributed grammar: a pushdown recogniser over element tokens checking contiguous offsets, size fields, element "
         "order, sorted children and xattrs, and every goodbye table (items = children's back-offsets/sizes/name hashes laid out as a complete BST in array form, "
